@@ -479,8 +479,10 @@ Definition judge (p : str) (sfx : option str) (rules : list rule) (expires : lis
         let kf := ""%string in   (* F11 is repaired (fix: 15c2c84): nothing is excused *)
         match expected with
         | WFinal fr =>
+          (* an origin that names the requested URL in its answer: the URL this request maps to, query included *)
+          let fr_body := if str_eqb (rs_body fr) s_echo_url then echo_body (out_url t (q_query q)) else rs_body fr in
           if str_eqb (cobs_kind o) (bytes "origin") && (cobs_status o =? 200) && (rs_status fr =? 200)
-             && negb (str_eqb (cobs_body o) (rs_body fr))
+             && negb (str_eqb (cobs_body o) fr_body)
           then verdict_kf false "the client received a response that was generated for a different resource" kf
           else v_ok
         | _ => v_ok
